@@ -188,8 +188,9 @@ class PassTok:
         return f'<pass {self.pid}>'
 
 
-def setup_hier(eng):
-    install_env(eng)
+def setup_hier(eng, jobs=4):
+    install_env(eng, jobs)
+    eng._jobs = jobs
     hier = eng.load_module('ddsmt.strategy_hierarchical')
     Task = hier.g['Task']
 
@@ -199,17 +200,25 @@ def setup_hier(eng):
 
     eng.overrides['ddsmt.strategy_hierarchical.get_passes'] = get_passes
 
-    class Stats:
+    # the real MutatorStats (statistics enabled or not: symbolic)
+    stats_cls = hier.g['MutatorStats']
 
-        def add(self, success, task, original):
-            cur().ghost.setdefault('stats_calls', 0)
+    def make_stats(e):
+        o = ObjVal(stats_cls)
+        o.attrs['data'] = SymDict()
+        o.attrs['_MutatorStats__enabled'] = mk.sbool(cur(), 'stats_enabled')
+        return o
 
-        def print(self):
-            pass
+    eng.overrides['ddsmt.strategy_hierarchical.MutatorStats'] = make_stats
+    eng.overrides['ddsmt.strategy_hierarchical.MutatorStats.print'] = \
+        lambda e, self: None
 
-    Stats.__module__ = 'contracts.strategies'
-    eng.overrides['ddsmt.strategy_hierarchical.MutatorStats'] = \
-        lambda e: Stats()
+    def count_exprs(e, x):
+        v = cur().fresh_int('nexprs')
+        cur().assume(v >= 0)
+        return SNum(v)
+
+    eng.overrides['ddsmt.nodes.count_exprs'] = count_exprs
 
     def collect_information(e, exprs):
         cur().ghost['collected_for'] = exprs
@@ -395,7 +404,14 @@ def setup_hier(eng):
             ('C02', sym._znum(g['skip0']) >= 0),
             ('C02', z3.Implies(sym.zbool(g['fresh0']),
                                sym._znum(g['skip0']) == 0)),
-        ]
+        ] + ([
+            # one worker: results arrive in submission order, so the results
+            # drained after a success never lower skip -- which candidate is
+            # adopted next does not depend on timing
+            ('C18', z3.Implies(red, z3.And(
+                sym._znum(v['skip']) == sym._znum(g['adopted']) - 1,
+                sym._znum(g['last_nodeid']) >= sym._znum(g['adopted'])))),
+        ] if eng._jobs == 1 else [])
 
     def havoc_res(e, env_, p):
         g = p.ghost
@@ -405,8 +421,8 @@ def setup_hier(eng):
         g['last0'] = g['last']
         g['written0'] = g['written']
         g['ever_set_sweep'] = False
-        if 'init_done' not in g:
-            pass
+        g['adopted'] = 0
+        g['last_nodeid'] = 0
 
     def havoc_res2(e, env_, p):
         g = p.ghost
@@ -421,6 +437,8 @@ def setup_hier(eng):
         flag_of(env_).state = mk.sbool(p, 'flag_l')
         g['ever_set_sweep'] = mk.sbool(p, 'ever_set_l')
         g['adopted_from'] = None
+        g['adopted'] = mk.sint(p, 'adopted_l')
+        g['last_nodeid'] = mk.sint(p, 'last_nodeid_l')
 
     class ResSpec(LoopSpec):
         pass
@@ -433,6 +451,10 @@ def setup_hier(eng):
         nodeid = p.fresh_int('nodeid')
         # Producer.generate: nodeid == count, skip < count
         p.assume(z3.And(nodeid >= 1, nodeid > sym._znum(g['skip0'])))
+        if eng._jobs == 1:
+            # Pool(1): in submission order = generation order
+            p.assume(nodeid >= sym._znum(g['last_nodeid']))
+            g['last_nodeid'] = SNum(nodeid)
         success = p.decide(p.fresh_bool('result_success'))
         name = 'mutator'
         if success:
@@ -444,6 +466,7 @@ def setup_hier(eng):
             p.assume(ACC(FLAT(cand)))
             ce = AbsExprs(cand, 'candidate')
             ce.sigma = sigma
+            ce.nodeid = SNum(nodeid)
             task = Task(SNum(nodeid), name, ce, None, mk.sreal(p, 'rt'))
             return Pickled((True, task))
         aborted = p.decide(p.fresh_bool('result_aborted'))
@@ -480,6 +503,7 @@ def setup_hier(eng):
         p = cur()
         if isinstance(x, AbsExprs) and hasattr(x, 'sigma'):
             p.ghost['adopted_from'] = (x.term, x.sigma)
+            p.ghost['adopted'] = x.nodeid
         return orig_redup(e, x)
 
     eng.overrides['ddsmt.nodes.reduplicate'] = reduplicate2
@@ -539,6 +563,10 @@ def hier_contracts(tier):
     return [
         Contract('hier.reduce', [HR], run_hier_reduce, setup=setup_hier,
                  assumptions=A, max_paths=20000),
+        Contract('hier.reduce[-j 1]', [HR], run_hier_reduce,
+                 setup=lambda e: setup_hier(e, 1),
+                 assumptions=A + ['one worker: results arrive in submission '
+                                  'order'], max_paths=20000),
     ]
 
 
